@@ -39,7 +39,7 @@ package main
   (ensures only-issued (=> (= $r0 200)
       (and (select (select (select issued (aeadkey (. w aesgcm))) (content nonce)) (content enctoken))
            (= $r2 (openf (aeadkey (. w aesgcm)) (content nonce) (content enctoken))))))
-  (ensures other-status (or (= $r0 200) (= $r0 401))))
+  (ensures other-status (or (= $r0 200) (= $r0 400) (= $r0 401))))
 
 (func "(*main.webSessionFactory).splitCheckToken"
   (props C07 C06)
